@@ -69,7 +69,26 @@ type c12case struct {
 	// which reports an error for every write (a closed stderr, a dead sink) - the record reaches the other one;
 	// "discard" = io.Discard; "none" = the only destination was removed again. The termination rule is the same.
 	Dest string `json:"error_device,omitempty"`
+	// the caller flag and the flag that keeps the package path in the caller's function name are set (the call site lies
+	// in package main, whose functions have no slash in their names): presentation, no input of the termination rule
+	CallerPkg bool `json:"caller_with_package_name_flags,omitempty"`
 }
+
+// muteW takes nothing and reports no error either.
+type muteW struct{}
+
+func (muteW) Write(p []byte) (int, error) { return 0, nil }
+
+// selfRemovingW fails and takes itself out of the logger's error device from inside that very Write (a sink that
+// unregisters itself when its connection is gone).
+type selfRemovingW struct{ lg *slog.Entry }
+
+func (w *selfRemovingW) Write(p []byte) (int, error) {
+	w.lg.RemoveErrorWriter(w)
+	w.lg.RemoveWriter(w)
+	return 0, errors.New("write: connection reset by peer (injected; the sink has unregistered itself)")
+}
+
 
 // deadW takes nothing and says so.
 type deadW struct{}
@@ -239,6 +258,22 @@ func c12enumerate() []c12case {
 			d++
 		}
 	}
+	// round 10: a first destination that takes nothing without saying so, one that unregisters itself from inside its
+	// failing Write (the record reaches the healthy one behind it in both cases); caller + package-name flags
+	d = 0
+	for _, b := range base {
+		if b.Format == "color" && b.Admit {
+			x, y := b, b
+			x.Dest = []string{"mute-first", "self-removing-first"}[d%2]
+			y.CallerPkg = true
+			if d%4 < 2 {
+				out = append(out, x, y)
+			} else {
+				out = append(out, y, x)
+			}
+			d++
+		}
+	}
 	return out
 }
 
@@ -304,6 +339,9 @@ func c12exec(c *Ctx, out string) {
 		fmt.Fprintln(os.Stderr, "harness usage error: flags not established", got)
 		os.Exit(3)
 	}
+	if cs.CallerPkg {
+		slog.AddFlags(slog.Lcaller | slog.Lcallerpackagename)
+	}
 	if cs.TrailingBreaks {
 		c12msg = c12msgBase + "\r\n\n"
 	}
@@ -331,6 +369,13 @@ func c12exec(c *Ctx, out string) {
 		lg.SetWriter(fw).SetErrorWriter(fw)
 	case "dead-first":
 		lg.SetWriter(deadW{}).SetErrorWriter(deadW{})
+		lg.AddWriter(f).AddErrorWriter(f)
+	case "mute-first":
+		lg.SetWriter(muteW{}).SetErrorWriter(muteW{})
+		lg.AddWriter(f).AddErrorWriter(f)
+	case "self-removing-first":
+		sr := &selfRemovingW{lg}
+		lg.SetWriter(sr).SetErrorWriter(sr)
 		lg.AddWriter(f).AddErrorWriter(f)
 	case "discard":
 		lg.SetErrorWriter(io.Discard)
